@@ -21,6 +21,7 @@ ASSUMPTIONS = ["layouts are those reachable with the library and standard Arrow 
                "(only constructible with StructArray.from_arrays(mask=...)) is the known finding KF-hidden-children and gets its own cases"]
 CORRESPONDENCE = "m_step (Steps.v) on the physical read-back of every layout vs the real operation"
 LAYOUTS = list(gen.LAYOUTS)
+EXTRA_IMPORTS = "NumpyView"
 
 OPS = [
     ("getitem_int", ao.op_getitem_int), ("getitem_slice", ao.op_getitem_slice), ("getitem_mask", ao.op_getitem_mask),
@@ -38,9 +39,10 @@ OPS = [
 
 
 def views_case(inp):
-    vterm, agree, impl_repr, raised = c03mod.collect_views(inp["ca"], inp["arr"])
+    vterm, agree, impl_repr, raised, iterm = c03mod.collect_views(inp["ca"], inp["arr"])
     term = (f"(let P := {inp['P']} in let L := {inp['L']} in let V := {vterm} in "
-            f"match chk_views P L V with [a; b; c; s] => [a; b && {ao.cq_bool(agree)}; c; s] | l => l end)")
+            f"match chk_views P L V, chk_iter_all P L {iterm} with [a; b; c; s], [a2; b2; c2; s2] => "
+            f"[a && a2; b && {ao.cq_bool(agree)} && b2; c && c2; s && s2] | l, _ => l end)")
     return {"stream": "views", "op": "views", "term": term, "input": ao.input_repr(inp), "impl_repr": impl_repr,
             "meta": ao.base_meta(inp, impl_raised=raised), "sig": ["views", inp["recipe"], len(inp["rows"])], "trivial": False,
             "hist": {"op": "views", "layout": inp["recipe"]}}
